@@ -316,7 +316,7 @@ pub fn worker_main(args: &[String]) -> i32 {
                 let p = progress.load(Ordering::Relaxed);
                 if p == last {
                     stuck += 1;
-                    if stuck >= 20 {
+                    if stuck >= 10 {
                         println!("{}", json!({"event": "timeout"}));
                         let _ = std::io::stdout().flush();
                         std::process::exit(3);
@@ -385,7 +385,7 @@ fn run_worker(tier: &str, shard: usize, nshards: usize, skip: i64, tokfile: &str
         None
     } else {
         let code = std::fs::read(&status).ok().and_then(|b| b.get(..8).map(|b| u64::from_le_bytes(b.try_into().unwrap()))).unwrap_or(u64::MAX);
-        let how = if timeout { "no progress for 20 s (endless loop?)".to_string() } else { format!("worker died: {st:?} (abort / out of memory under a 4 GiB limit)") };
+        let how = if timeout { "no progress for 10 s (endless loop?)".to_string() } else { format!("worker died: {st:?} (abort / out of memory under a 4 GiB limit)") };
         Some(((code / 2) as usize, if code % 2 == 1 { 8 } else { 4 }, how))
     };
     WorkerOutcome { violations, died }
@@ -393,7 +393,7 @@ fn run_worker(tier: &str, shard: usize, nshards: usize, skip: i64, tokfile: &str
 
 pub fn run(tier: &str, only: Option<&Value>) -> i32 {
     let mut rep = Report::new("C12", tier);
-    rep.rule = "E1 robustness menus — every numeric position x the boundary integer alphabet (singly and all pairs within a template; table-sized positions capped at 65536), every identifier position x an identifier alphabet incl. raw identifiers, generics, non-ASCII and keywords, every known attribute name x 10 shapes x 12 positions, a list of structural oddities (bases of every kind, odd enum bases, duplicate names, reserved generated names, broken backend text), the dependency graphs of C10, public-API call sequences (<= 3 add_module calls over 3 modules x 4 path kinds, then build) — and E3: every token sequence the parser accepts (lengths as in C18) continued into build; all at pointer widths 4 and 8 in worker subprocesses under a 4 GiB address-space limit and a 20 s no-progress watchdog; plus every rejected token text of length <= 3 through add_file, whose error must name path:line:column inside the file. distinct = distinct case texts".into();
+    rep.rule = "E1 robustness menus — every numeric position x the boundary integer alphabet (singly and all pairs within a template; table-sized positions capped at 65536), every identifier position x an identifier alphabet incl. raw identifiers, generics, non-ASCII and keywords, every known attribute name x 10 shapes x 12 positions, a list of structural oddities (bases of every kind, odd enum bases, duplicate names, reserved generated names, broken backend text), the dependency graphs of C10, public-API call sequences (<= 3 add_module calls over 3 modules x 4 path kinds, then build) — and E3: every token sequence the parser accepts (lengths as in C18) continued into build; all at pointer widths 4 and 8 in worker subprocesses under a 4 GiB address-space limit and a 10 s no-progress watchdog; plus every rejected token text of length <= 3 through add_file, whose error must name path:line:column inside the file. distinct = distinct case texts".into();
     rep.assumptions = vec![
         "a worker that dies or stalls is attributed to the case recorded in its status file and re-run alone before it is reported".into(),
         "asymptotic resource use is not measured: fixed generous caps on inputs whose requested tables are small".into(),
@@ -481,13 +481,18 @@ pub fn run(tier: &str, only: Option<&Value>) -> i32 {
             let died = o.died.clone();
             outs.push(o);
             match died {
-                Some((idx, _, _)) if (idx as i64) > skip && outs.len() < 50 => skip = idx as i64,
+                // a shard is resumed after a death, but not indefinitely: three cases that kill or
+                // stall the worker are enough to report (the rest of the shard is then not run)
+                Some((idx, _, _)) if (idx as i64) > skip && outs.len() < 3 => skip = idx as i64,
                 _ => break,
             }
         }
         outs
     });
     for outs in results {
+        if outs.len() >= 3 && outs.last().is_some_and(|o| o.died.is_some()) {
+            rep.caps.push("a shard was abandoned after three cases that killed or stalled its worker".into());
+        }
         for o in outs {
             for (idx, ps, kind, detail) in o.violations {
                 let c = &all[idx];
